@@ -778,6 +778,11 @@ class Evaluator:
         if isinstance(e, ast.BinOp):
             l = self.ev(e.left, st)
             r_ = self.ev(e.right, st)
+            if isinstance(e.op, ast.Add):
+                # string building: "lit" + x, f"..." + f"..." and the single f-string are one and the same text
+                lp, rp = _fparts(l), _fparts(r_)
+                if lp is not None and rp is not None and (isinstance(l, str) or isinstance(r_, str) or _is_f(l) or _is_f(r_)) and not (isinstance(l, str) and isinstance(r_, str)):
+                    return _fstring(lp + rp, e)
             if isinstance(e.op, ast.Add) and (isinstance(l, list) or isinstance(r_, list)) and not isinstance(l, (str, int, float)) and not isinstance(r_, (str, int, float)):
                 ll = l if isinstance(l, list) else [Sym("*" + vtext(l))]
                 rr = r_ if isinstance(r_, list) else [Sym("*" + vtext(r_))]
@@ -802,10 +807,14 @@ class Evaluator:
             parts = []
             for v in e.values:
                 if isinstance(v, ast.Constant):
-                    parts.append(str(v.value))
+                    parts.append(("lit", str(v.value)))
                 else:
-                    parts.append("{" + vtext(self.ev(v.value, st)) + "}")
-            return Sym("f'" + "".join(parts) + "'", tag=("fstring", e))
+                    val = self.ev(v.value, st)
+                    if isinstance(val, str) and v.conversion == -1 and v.format_spec is None:
+                        parts.append(("lit", val))
+                    else:
+                        parts.append(("val", vtext(val)))
+            return _fstring(parts, e)
         if isinstance(e, ast.Lambda):
             return Sym("lambda:" + self.closure_text(e, st))
         if isinstance(e, (ast.ListComp, ast.SetComp, ast.GeneratorExp, ast.DictComp)):
@@ -847,6 +856,16 @@ class Evaluator:
         r = self.hooks.on_call(c, ftext, args, kwargs, st)
         if r is not NOTHING:
             return r
+        if ftext in ("it.chain", "itertools.chain") and args and not kwargs:
+            # chain(a, b, ...) visits a's elements, then b's
+            out = []
+            for a in args:
+                if isinstance(a, (list, tuple)):
+                    out.extend(a)
+                else:
+                    out.append(Sym("*" + vtext(a)))
+            if not any(isinstance(x, Sym) and x.text.startswith("*") for x in out[:-1]):
+                return out
         if ftext == "getattr" and len(args) == 2 and isinstance(args[1], str) and args[1].isidentifier() and not kwargs:
             # getattr(x, "name") is x.name
             return self.ev(ast.copy_location(ast.Attribute(value=c.args[0], attr=args[1], ctx=ast.Load()), c), st)
@@ -1044,6 +1063,12 @@ class Evaluator:
                 if nonempty is not None and isinstance(x, (Sym, list, tuple, dict, str)):
                     t = self.truth_of(x, st)
                     return t if nonempty else not t
+        # re's search/match/fullmatch return a Match (always truthy) or None: `x is None` is `not x`
+        if isinstance(op, (ast.Is, ast.IsNot, ast.Eq, ast.NotEq)):
+            for a, b in ((l, r), (r, l)):
+                if b is None and isinstance(a, Sym) and a.tag and a.tag[0] == "call" and str(a.tag[1]).rsplit(".", 1)[-1] in ("search", "match", "fullmatch"):
+                    t = self.truth_of(a, st)
+                    return (not t) if isinstance(op, (ast.Is, ast.Eq)) else t
         sym = isinstance(l, Sym) or isinstance(r, Sym) or _has_sym(l) or _has_sym(r)
         if not sym:
             try:
@@ -1095,6 +1120,31 @@ class Evaluator:
             pass
         val = st.atom(f"{lt} {name} {rt}")
         return (not val) if neg else val
+
+
+def _is_f(v):
+    return isinstance(v, Sym) and v.tag is not None and v.tag[0] == "fstring"
+
+
+def _fparts(v):
+    if isinstance(v, str):
+        return [("lit", v)]
+    if _is_f(v):
+        return list(v.tag[2])
+    if isinstance(v, Sym) and not v.text.startswith("*"):
+        return [("val", v.text)]
+    return None
+
+
+def _fstring(parts, node):
+    merged = []
+    for k, t in parts:
+        if k == "lit" and merged and merged[-1][0] == "lit":
+            merged[-1] = ("lit", merged[-1][1] + t)
+        else:
+            merged.append((k, t))
+    text = "".join(t if k == "lit" else "{" + t + "}" for k, t in merged)
+    return Sym("f'" + text + "'", tag=("fstring", node, merged))
 
 
 _DESUGARED: dict = {}
